@@ -180,6 +180,9 @@ func RunWith(prop, sub string, pp *gen.PtrProg, rep *lib.Report, oracle string, 
 	// probes, sites, function ids (over every function of the program, analysed or not)
 	var allFns []*ssa.Function
 	for fn := range ssautil.AllFunctions(prog) {
+		if fn.TypeParams().Len() > 0 && len(fn.TypeArgs()) == 0 {
+			continue // body of a generic function: never executed, only its instances are
+		}
 		if fn.Blocks != nil && (fn.Pkg == nil || fn.Pkg.Pkg.Path() == "vprog") {
 			allFns = append(allFns, fn)
 		}
@@ -581,4 +584,86 @@ func Canary(res *Result, victim *ssa.Function) (int, int, string) {
 		}
 	}
 	return fails, stray, fmt.Sprintf("no-effect(%s): %s; %d failing rule instances, %d elsewhere %v", victim.String(), out[0], fails, stray, strays)
+}
+
+// FocusOf maps the failing rule instances to the round-trip kinds of the generator that exercise
+// the same instruction kinds (for the targeted search after a criterion failure).
+func FocusOf(res *Result) []string {
+	seen := map[string]bool{}
+	var out []string
+	add := func(ks ...string) {
+		for _, k := range ks {
+			if !seen[k] {
+				seen[k] = true
+				out = append(out, k)
+			}
+		}
+	}
+	d := res.Dump
+	for _, f := range res.Fails {
+		if f.Fn >= len(d.Funcs) || f.Idx >= len(d.Code[f.Fn]) {
+			continue
+		}
+		if facts := res.FactsOf[f.Fn]; f.Idx < len(facts) && strings.Contains(facts[f.Idx], "2000") {
+			add("struct")
+		}
+		switch ins := d.Code[f.Fn][f.Idx].(type) {
+		case *ssa.Send, *ssa.Select:
+			add("chan", "select", "go")
+		case *ssa.UnOp:
+			if ins.Op.String() == "<-" {
+				add("chan", "select", "go")
+			} else {
+				add("field", "pp", "global", "array", "slice", "append")
+			}
+		case *ssa.MapUpdate, *ssa.Lookup, *ssa.Next:
+			add("map", "mapk", "map-range", "mapk-range")
+		case *ssa.Store:
+			add("field", "pp", "global", "array", "slice", "closure")
+		case *ssa.FieldAddr:
+			add("field", "pp")
+		case *ssa.IndexAddr, *ssa.Slice:
+			add("slice", "array", "append", "copy")
+		case *ssa.Phi:
+			add("phi")
+		case *ssa.MakeInterface, *ssa.TypeAssert, *ssa.ChangeInterface:
+			add("iface", "any", "anyfield", "assert-iface", "invoke")
+		case *ssa.MakeClosure:
+			add("closure", "bound")
+		case *ssa.Field:
+			add("struct")
+		case *ssa.Panic:
+			add("panic")
+		case *ssa.Return:
+			add("static", "results", "dyncall", "invoke")
+		case ssa.CallInstruction:
+			cc := ins.Common()
+			if b, ok := cc.Value.(*ssa.Builtin); ok {
+				switch b.Name() {
+				case "append":
+					add("append")
+				case "copy":
+					add("copy")
+				default:
+					add("panic")
+				}
+				break
+			}
+			switch {
+			case cc.IsInvoke():
+				add("invoke", "iface", "assert-iface")
+			case cc.StaticCallee() == nil:
+				add("dyncall", "closure", "bound", "funcfield")
+			default:
+				add("static", "results", "panic", "bound")
+			}
+			if _, isGo := ins.(*ssa.Go); isGo {
+				add("go")
+			}
+		}
+	}
+	if len(out) > 8 {
+		out = out[:8]
+	}
+	return out
 }
